@@ -148,4 +148,25 @@ def hrun (pol : FlagPolicy) (s : OState) (h : Handle) : List HOp → Option (OSt
     | none => none
     | some (s', h', _) => hrun pol s' h' ops
 
+/-! ## `fs.FS.Delete` when a system call fails: the caller may call it again -/
+
+/-- `Delete(dir, name)` in state `s`; `dirOk`: the kernel's answer to the directory fsync.
+    unlink fails (ENOENT) when the name is already gone: the error is returned, nothing else happens -/
+def fsDeleteF (s : OState) (name : String) (dirOk : Bool) : List Sys × Bool :=
+  if !(s.get name).exist then ([], false)
+  else if dirOk then ([.unlink name, .fsyncDir], true) else ([.unlink name], false)
+
+/-- one Delete call: the state afterwards and whether it returned nil -/
+def dstep (s : OState) (name : String) (dirOk : Bool) : Option (OState × Bool) :=
+  let (calls, ack) := fsDeleteF s name dirOk
+  (run s calls).map (fun s' => (s', ack))
+
+/-- successive Delete calls for one name; the answer of the last one -/
+def drun (s : OState) (name : String) : List Bool → Option (OState × Option Bool)
+  | [] => some (s, none)
+  | [o] => (dstep s name o).map (fun r => (r.1, some r.2))
+  | o :: os => match dstep s name o with
+    | none => none
+    | some (s', _) => drun s' name os
+
 end RaftWal.OsFs
